@@ -26,7 +26,7 @@ def statefulCase (suite : String) (hdr : List String) (body : List (List String)
   match suite with
   | "gates" | "gator" | "minfilter" | "tripper" => some (GatesDrv.handle hdr body)
   | "server" => some (ServerDrv.handle hdr body)
-  | "forkable" => some (ForkableDrv.handle hdr body)
+  | "forkable" | "hubburst" => some (ForkableDrv.handle hdr body)
   | "dbin" => some (FilesDrv.handleDbin hdr body)
   | "index" => some (IndexDrv.handle hdr body)
   | _ => none
